@@ -6,6 +6,7 @@ from ..env import gfapy, GfapyError
 from ..runner import Part, Violation
 
 ID = "C12"
+ATHERIS = ['multi', 'graph']  # parts also driven by libFuzzer in the thorough tier (vf/runner.py: all_parts)
 RULE = ("part 'laws': links over all orientation pairs, distinct / self / hairpin, overlap '*' or a CIGAR over "
         "{M,I,D,P,=,X,H}, with tags: complement involution, reference/query length exchange, is_complement / "
         "is_eql / is_same / is_compatible symmetric and repeatable, equal hash of a link and its complement with the receiver textually unchanged, "
